@@ -705,7 +705,11 @@ func (g *gen) vecCtor(t *ty, d int) expr {
 	inferred := !strings.Contains(name, "<") && !strings.HasSuffix(name, "i") && !strings.HasSuffix(name, "u") && !strings.HasSuffix(name, "f")
 	switch {
 	case g.chance("splat", 20):
-		return expr{fmt.Sprintf("%s(%s)", name, g.genExpr(scT, d-1).s), false}
+		arg := g.genExpr(scT, d-1)
+		if inferred && arg.konst && excluded("c09-folded-abstract-vector-picks-first-vecn-type") {
+			name = t.String() // C09-15: an abstract splat folded with an abstract operand gets the wrong vector type
+		}
+		return expr{fmt.Sprintf("%s(%s)", name, arg.s), false}
 	case t.n >= 3 && g.chance("mixed", 35):
 		// vecN(vec2, scalars…) or vec4(vec2, vec2) / vecN(vecN-1, s)
 		k := g.intn("first", 2, t.n-1)
